@@ -252,6 +252,15 @@ func init() {
 		return nil
 	})
 
+	// ---- context (only never-cancelled contexts unless a harness installs its own)
+	regStub("context.AfterFunc", func(ex *Exec, fn *ssa.Function, args []Value) Value {
+		ctx := args[0].(*IfaceV)
+		if ctx.Typ != nil && (ctx.Typ.String() == "context.backgroundCtx" || ctx.Typ.String() == "context.todoCtx") {
+			return &FuncV{Name: "stop", Native: func(ex *Exec, a []Value) Value { return TTrue }}
+		}
+		panic(unsupported("context.AfterFunc on a cancellable context: " + ctx.Typ.String()))
+	})
+
 	// ---- randomness
 	regStub("crypto/rand.Read", func(ex *Exec, fn *ssa.Function, args []Value) Value {
 		b := args[0].(*SliceV)
@@ -344,7 +353,7 @@ func (ex *Exec) timeNow() TupleV {
 	for i := 0; i < st.NumFields(); i++ {
 		switch st.Field(i).Name() {
 		case "wall":
-			tv[i] = nsec
+			tv[i] = ZExt(Extract(nsec, 29, 0), 64) // nsec < 2^30; the monotonic-clock flag (bit 63) is concretely clear
 		case "ext":
 			tv[i] = Add(sec, BV(64, unixToInternal))
 		default:
